@@ -29,6 +29,7 @@ ToOp(e) ==
       [] e.k = "proto" -> OpProto(e.steps, e.n)
       [] e.k = "ptc"   -> IF e.rel THEN OpPtcRel(e.steps, e.pts) ELSE OpPtcAbs(e.steps, Tms(e.pts))
       [] e.k = "upd"   -> OpUpd(e.name, e.v)
+      [] e.k = "scale" -> OpScale(e.name, e.f)
       [] e.k = "ov"    -> OpOv(e.v)
       [] e.k = "ss"    -> OpSs(Tm(e.tau))
       [] e.k = "clear" -> OpClear
